@@ -28,8 +28,10 @@ def driverLine (inp obs : List String) : Bool × Bool × String × String :=
       (if kind != "e" && obs.contains "N" then ["C20/tls-request-told-not-tls"] else []) ++
       (if obs.contains "W" then ["C20/tls-info-of-another-connection"] else []) ++
       (if obs.contains "X" then ["C20/tls-info-panic"] else []) ++
-      -- the last poll of every future that is still alive at the end comes after the send and two full rounds of polls
-      (if obs.getLast? == some "P" then ["C20/tls-request-never-learns-the-info"] else []) ++
+      -- the last poll comes after the send and as many rounds of polls as there are requests waiting, plus one: by then the
+      -- model has everybody through (a fair lock lets at least one waiter through per round); a request that is still
+      -- pending where the model's is not never learns the information
+      (if obs.getLast? == some "P" && (rs.getLast?.map fun r => r != Res.pending) == some true then ["C20/tls-request-never-learns-the-info"] else []) ++
       (if obs.length != ops.length then ["C20/unparsable-observation"] else [])
     (" ".intercalate obs == shown, cls.isEmpty, if cls.isEmpty then "-" else ",".intercalate cls, shown)
   | _ => (false, false, "bad-line", "")
